@@ -20,13 +20,13 @@ func init() {
 			}
 		},
 		Bounds: func(thorough bool) map[string]string {
-			g, p, c := "2", "2", "0..2, 2 clients"
+			g, p, c := "2", "2", "0..2, 3 clients"
 			if thorough {
 				g, p, c = "3", "3", "0..3, 3 clients"
 			}
 			return map[string]string{
 				"OnceConstructor[int,*T]": g + " concurrent Gets with symbolic keys in {0,1} (key equality decided by the solver) + a later Get; gate variant: 2 Gets of a key whose construction blocks + 1 Get of another key that must finish first",
-				"ChanSemaphore":           "capacity " + c + " (Release only after a successful Acquire) + a canceller; a hold variant (capacity 1, the holder keeps the slot until the other client's Acquire returned, which is only possible through cancellation); context is a harness stub honouring the context.Context contract; plus (sequential) contexts of the real context package cancelled with and without an explicit cause (WithCancelCause, directly and through an embedding user type) while every slot is held (capacity 0..1)",
+				"ChanSemaphore":           "capacity " + c + " (Release only after a successful Acquire) + a canceller; a hold variant (capacity 1, the holder keeps the slot until the other client's Acquire returned, which is only possible through cancellation); context is a harness stub honouring the context.Context contract; plus (sequential) contexts of the real context package cancelled with and without an explicit cause (WithCancelCause, directly and through an embedding user type) while every slot is held (capacity 0..2): the failed Acquire returns the context's error, leaves the number of held slots unchanged, and a further Acquire fails too",
 				"schedules":               "all interleavings at synchronisation points (channel ops, select, Mutex, sync.Map, WaitGroup, goroutine start/exit) with at most " + p + " preemptions; every interleaving also checked by a happens-before race detector",
 			}
 		},
